@@ -19,6 +19,7 @@ type side interface {
 	Glob(pattern string) ([]string, error)
 	ReadDir(name string) ([]fs.DirEntry, error)
 	WalkDir(root string, fn fs.WalkDirFunc) error
+	Lstat(name string) (fs.FileInfo, error)
 }
 
 // kernelSide is the oracle: path/filepath and os on the real tree.
@@ -27,6 +28,7 @@ type kernelSide struct{}
 func (kernelSide) Glob(p string) ([]string, error)           { return filepath.Glob(p) }
 func (kernelSide) ReadDir(p string) ([]fs.DirEntry, error)   { return os.ReadDir(p) }
 func (kernelSide) WalkDir(r string, fn fs.WalkDirFunc) error { return filepath.WalkDir(r, fn) }
+func (kernelSide) Lstat(p string) (fs.FileInfo, error)       { return os.Lstat(p) }
 
 var (
 	errSentinel = errors.New("c14 sentinel")
@@ -77,20 +79,103 @@ func broken(o outcome) bool {
 	return o.Kind == "PANIC" || o.Kind == "DEADLOCK" || o.Kind == "RUNAWAY"
 }
 
-func entryString(e fs.DirEntry) string {
-	it, sz := "?", "-"
+// Every accessor of a listed entry is judged. Lesson: a directory entry is a
+// small object with its own code for Name, IsDir, Type and Info; comparing a
+// class of the type ("is it a directory", "is it a link") leaves the value of
+// Type() itself, the agreement of the accessors with each other and the
+// agreement of Info() with Lstat of the same path unobserved.
+//
+// entryFields describes the entry e met at path on side s:
+//
+//	typeClass | IsDir | Type() bit for bit | info | self
+//
+// info is "info!<error class>" or
+// "Info().Mode() class, size of a regular file, Info().Mode() bit for bit,
+// Info().Name(), Info().IsDir()" joined with commas; self lists what disagrees
+// between the accessors of the entry, its Info() and Lstat(path) of the same
+// file system ("same" if nothing, "n/a" if Lstat or Info fails there).
+//
+// With full = false Info and Lstat are not called (info is "-"): what an entry
+// answers does not depend on what the callback of a walk returns at some
+// visit, so the walks with an acting callback (one per visit index, quadratic
+// in the number of visits) record Name, IsDir and Type() only and the walks of
+// the families none and prop record everything.
+func entryFields(s side, path string, e fs.DirEntry, full bool) string {
+	it, self := "-", "n/a"
+
+	if !full {
+		return fmt.Sprintf("%s|%v|%v|%s|%s", typeName(e.Type()), e.IsDir(), e.Type(), it, self)
+	}
 
 	info, err := e.Info()
 	if err != nil {
 		it = "info!" + errClass(err)
 	} else {
-		it = typeName(info.Mode())
+		sz := "-"
 		if info.Mode().IsRegular() {
 			sz = fmt.Sprint(info.Size())
 		}
+
+		it = fmt.Sprintf("%s,%s,%v,%s,%v", typeName(info.Mode()), sz, info.Mode(), info.Name(), info.IsDir())
+
+		var bad []string
+
+		if e.Name() != info.Name() {
+			bad = append(bad, "name/info-name")
+		}
+
+		if e.IsDir() != info.IsDir() {
+			bad = append(bad, "isdir/info-isdir")
+		}
+
+		if e.Type() != info.Mode().Type() {
+			bad = append(bad, "type/info-mode")
+		}
+
+		if e.IsDir() != e.Type().IsDir() {
+			bad = append(bad, "isdir/type")
+		}
+
+		if lst, err := s.Lstat(path); err == nil {
+			if info.Name() != lst.Name() {
+				bad = append(bad, "info-name/lstat")
+			}
+
+			if info.Mode() != lst.Mode() {
+				bad = append(bad, "info-mode/lstat")
+			}
+
+			if info.Size() != lst.Size() {
+				bad = append(bad, "info-size/lstat")
+			}
+
+			if !info.ModTime().Equal(lst.ModTime()) {
+				bad = append(bad, "info-mtime/lstat")
+			}
+
+			if info.IsDir() != lst.IsDir() {
+				bad = append(bad, "info-isdir/lstat")
+			}
+
+			self = "same"
+		}
+
+		if len(bad) > 0 {
+			self = strings.Join(bad, "+")
+		}
 	}
 
-	return fmt.Sprintf("%s|%s|%v|%s|%s", e.Name(), typeName(e.Type()), e.IsDir(), it, sz)
+	return fmt.Sprintf("%s|%v|%v|%s|%s", typeName(e.Type()), e.IsDir(), e.Type(), it, self)
+}
+
+// joinName is the path of the entry name of the directory dir, in the spelling
+// a caller would use.
+func joinName(dir, name string) string {
+	if strings.HasSuffix(dir, "/") {
+		return dir + name
+	}
+
+	return dir + "/" + name
 }
 
 func typeName(m fs.FileMode) string {
@@ -129,7 +214,7 @@ func evalQuery(s side, q query, arg string) (o outcome) {
 			}
 
 			for _, e := range es {
-				o.List = append(o.List, entryString(e))
+				o.List = append(o.List, e.Name()+"|"+entryFields(s, joinName(arg, e.Name()), e, true))
 			}
 		case "WalkDir":
 			n := 0
@@ -145,14 +230,15 @@ func evalQuery(s side, q query, arg string) (o outcome) {
 					return errRunaway
 				}
 
+				// path | type class | IsDir | error class | Name | Type() | info | self
 				v := p + "|"
 				if d == nil {
-					v += "nil|false|"
+					v += "nil|false|" + errClass(err)
 				} else {
-					v += fmt.Sprintf("%s|%v|", typeName(d.Type()), d.IsDir())
+					f := splitV(entryFields(s, p, d, q.Fam == "none" || q.Fam == "prop"))
+					v += f[0] + "|" + f[1] + "|" + errClass(err) + "|" + d.Name() + "|" + strings.Join(f[2:], "|")
 				}
 
-				v += errClass(err)
 				o.List = append(o.List, v)
 
 				if q.Fam == "prop" && err != nil {
@@ -362,27 +448,130 @@ func compareReadDir(want, got outcome) []diff {
 	var ds []diff
 
 	seen := map[string]bool{}
-	fields := []string{"name", "type", "isdir", "info-type", "info-size"}
 
 	for i := range want.List {
 		w, g := splitV(want.List[i]), splitV(got.List[i])
 
-		// fs.DirEntry allows Info to be taken at read time or at call time: when
-		// the oracle's lazy lstat fails (unsearchable directory) nothing is implied
-		nf := len(fields)
-		if strings.HasPrefix(w[3], "info!") {
-			nf = 3
-		}
-
-		for f := 1; f < nf && f < len(w) && f < len(g); f++ {
-			if w[f] != g[f] {
-				key := fields[f] + w[f] + g[f] + w[1]
-				if !seen[key] {
-					seen[key] = true
-					ds = append(ds, diff{Kind: fields[f], Want: w[1] + ":" + w[f], Got: g[1] + ":" + g[f]})
-				}
+		for _, d := range entryDiffs(w[1:], g[1:], w[0], joinName("x", w[0])) {
+			key := d.Kind + d.Want + d.Got
+			if !seen[key] {
+				seen[key] = true
+				ds = append(ds, diff{Kind: d.Kind, Want: w[1] + ":" + d.Want, Got: g[1] + ":" + d.Got})
 			}
 		}
+	}
+
+	return ds
+}
+
+// nameClass keeps run-dependent names (the scratch directory) out of signatures.
+func nameClass(name, path string) string {
+	if name == filepath.Base(path) {
+		return "base-of-path"
+	}
+
+	return "other:" + name
+}
+
+// entryDiffs compares what entryFields recorded for the same entry on the
+// oracle (w) and on a file system (g); name and path are the oracle's.
+//
+//   - type class, IsDir and the value of Type() must be the oracle's;
+//   - fs.DirEntry allows Info to be taken at read time or at call time: when
+//     the oracle's lazy lstat fails (unsearchable directory) nothing is implied;
+//     otherwise Info must succeed and its type class, regular-file size, mode
+//     (type, permission and special bits), name and IsDir must be the oracle's.
+//     "*" on the oracle's side stands for a name that is not the oracle's to
+//     tell (the root of a walk);
+//   - self: the accessors of the entry, its Info and Lstat of the same path on
+//     the same file system must agree, whatever the oracle says.
+func entryDiffs(w, g []string, name, path string) []diff {
+	var ds []diff
+
+	if len(w) < 5 || len(g) < 5 {
+		return []diff{{Kind: "entry", Want: "entry", Got: "nil-entry"}}
+	}
+
+	for f, k := range []string{"type", "isdir", "type-bits"} {
+		if w[f] != g[f] {
+			ds = append(ds, diff{Kind: k, Want: w[f], Got: g[f]})
+		}
+	}
+
+	switch {
+	case strings.HasPrefix(w[3], "info!") || w[3] == "-":
+	case strings.HasPrefix(g[3], "info!"):
+		ds = append(ds, diff{Kind: "info", Want: "ok", Got: g[3]})
+	default:
+		wi, gi := strings.Split(w[3], ","), strings.Split(g[3], ",")
+
+		for f, k := range []string{"info-type", "info-size", "info-mode", "info-name", "info-isdir"} {
+			if f >= len(wi) || f >= len(gi) || wi[f] == gi[f] || wi[f] == "*" {
+				continue
+			}
+
+			if k == "info-name" {
+				ds = append(ds, diff{Kind: k, Want: nameClass(wi[f], path), Got: nameClass(gi[f], path)})
+
+				continue
+			}
+
+			ds = append(ds, diff{Kind: k, Want: wi[f], Got: gi[f]})
+		}
+	}
+
+	if g[4] != "same" && g[4] != "n/a" {
+		ds = append(ds, diff{Kind: "entry-vs-lstat", Want: "same", Got: g[4]})
+	}
+
+	return ds
+}
+
+// visitDiffs compares one visit of the oracle's walk with the visit at the
+// same index: path | type class | IsDir | error class | Name | accessor fields.
+//
+// The entry of the root is made from Lstat(root), and which name Lstat gives
+// to "." or to the root directory of a file system is not a matter of
+// enumeration (os answers with the spelling it was given): the name of the
+// root entry is only held to Lstat of the same file system (self), the names of
+// the entries found below it to the oracle as well.
+func visitDiffs(ws, gs string, root bool) []diff {
+	if ws == gs {
+		return nil
+	}
+
+	w, g := splitV(ws), splitV(gs)
+
+	switch {
+	case w[0] != g[0]:
+		return []diff{{Kind: "visit-seq", Want: "path:" + w[1], Got: "other-path:" + g[1], Path: w[0], HasPath: true}}
+	case w[1] != g[1]:
+		return []diff{{Kind: "visit-seq", Want: "type:" + w[1], Got: "type:" + g[1], Path: w[0], HasPath: true}}
+	case w[2] != g[2]:
+		return []diff{{Kind: "visit-seq", Want: "isdir:" + w[2], Got: "isdir:" + g[2], Path: w[0], HasPath: true}}
+	case w[3] != g[3]:
+		return []diff{{Kind: "visit-seq", Want: "err:" + w[3], Got: "err:" + g[3], Path: w[0], HasPath: true}}
+	case len(w) < 8 || len(g) < 8:
+		return nil // both visits have a nil entry
+	}
+
+	var ds []diff
+
+	if root {
+		w[4] = "*"
+
+		if in := strings.Split(w[6], ","); len(in) == 5 {
+			in[3] = "*"
+			w[6] = strings.Join(in, ",")
+		}
+	}
+
+	if w[4] != g[4] && w[4] != "*" {
+		ds = append(ds, diff{Kind: "visit-entry", Want: "name:" + nameClass(w[4], w[0]), Got: "name:" + nameClass(g[4], w[0]), Path: w[0], HasPath: true})
+	}
+
+	for _, d := range entryDiffs(append([]string{w[1], w[2]}, w[5:]...), append([]string{g[1], g[2]}, g[5:]...), w[4], w[0]) {
+		ds = append(ds, diff{Kind: "visit-entry", Want: d.Kind + ":" + d.Want, Got: d.Kind + ":" + d.Got, Path: w[0], HasPath: true})
 	}
 
 	return ds
@@ -396,25 +585,24 @@ func compareWalk(want, got outcome) []diff {
 		n = len(got.List)
 	}
 
-	j := 0
-	for j < n && want.List[j] == got.List[j] {
-		j++
+	// a visit whose entry answers wrongly is reported and the comparison goes
+	// on; a visit that is not the oracle's ends it
+	j, seqBroken := 0, false
+	seen := map[string]bool{}
+
+	for ; j < n && !seqBroken; j++ {
+		for _, d := range visitDiffs(want.List[j], got.List[j], j == 0) {
+			seqBroken = seqBroken || d.Kind == "visit-seq"
+
+			if key := d.Kind + d.Want + d.Got; !seen[key] {
+				seen[key] = true
+				ds = append(ds, d)
+			}
+		}
 	}
 
 	switch {
-	case j < n:
-		w, g := splitV(want.List[j]), splitV(got.List[j])
-
-		switch {
-		case w[0] != g[0]:
-			ds = append(ds, diff{Kind: "visit-seq", Want: "path:" + w[1], Got: "other-path:" + g[1], Path: w[0], HasPath: true})
-		case w[1] != g[1]:
-			ds = append(ds, diff{Kind: "visit-seq", Want: "type:" + w[1], Got: "type:" + g[1], Path: w[0], HasPath: true})
-		case w[2] != g[2]:
-			ds = append(ds, diff{Kind: "visit-seq", Want: "isdir:" + w[2], Got: "isdir:" + g[2], Path: w[0], HasPath: true})
-		default:
-			ds = append(ds, diff{Kind: "visit-seq", Want: "err:" + w[3], Got: "err:" + g[3], Path: w[0], HasPath: true})
-		}
+	case seqBroken:
 	case len(got.List) < len(want.List):
 		w := splitV(want.List[j])
 		ds = append(ds, diff{Kind: "visit-seq", Want: "next:" + w[1] + "/" + w[3], Got: "stops", Path: w[0], HasPath: true})
